@@ -268,5 +268,48 @@ pub fn run(tier: &str, seed: u64, report: &mut Report) {
             compare_run(report, "race:B", case, rb, &mb, &CmpOpts::default());
             compare_state(report, "race", case, post, &answers[*i_dump]);
         }
+        // ---- the race MEETS a storage fault (real code + the property's oracle): A has worked out its version
+        // id, B then runs to the end (taking that id and completing), and A's own BANDHEAD write fails with
+        // something other than "already exists".  "The loser fails rather than writing into the winner's
+        // version" — and it certainly leaves the winner's files alone.
+        let nb = all_bands(&sc.pre_state).into_iter().max().map(|b| b + 1).unwrap_or(0);
+        for i in 0..9usize {
+            for kind in ["ot", "pd"] {
+                let arch = fresh_copy(&sc, "racef");
+                let mut sched = vec![false; i];
+                sched.extend(vec![true; 400]);
+                let fault = fault_spec("write", &format!("{}/BANDHEAD", band_name(nb)), 0, kind);
+                let (ra, rb) = run_schedule_with_faults(&arch, &a, &b, &sched, vec![fault], vec![]);
+                let (post, _) = abstract_archive(&arch);
+                let case = json!({"scenario": case_id, "schedule": format!("A moves {i} times, then B to the end, then A"), "fault": format!("A: write {}/BANDHEAD fails ({kind})", band_name(nb)), "actors": ["backup(source A)", "backup(source B)"]});
+                report.case(&format!("race-fault/{case_seed}/{i}/{kind}"), true);
+                report.hit("race-schedule-with-fault");
+                if let Some(why) = extends(&sc.pre_state, &post) {
+                    report.oracle_fail("race:existing-file-touched", case.clone(), "racing backups altered or removed an existing file", json!(why));
+                }
+                // whatever B wrote (it ran to the end before A resumed) is still there, byte for byte
+                let b_files: Vec<&str> = rb.trace.iter().filter(|l| l.starts_with("op write ") && l.ends_with(" ok")).filter_map(|l| l.split(' ').nth(2)).collect();
+                let post_map = state_map(&post);
+                for f in &b_files {
+                    if !post_map.contains_key(*f) {
+                        report.oracle_fail("race:loser-removed-winners-file", case.clone(), "a file the other (finished) backup had written is gone after the losing backup failed", json!({"file": f, "a": trunc(&ra.result), "b": trunc(&rb.result)}));
+                        break;
+                    }
+                }
+                if rb.result.starts_with("result ok") && rb.result.contains(" errors=0") {
+                    let b_band = complete_bands(&post).into_iter().filter(|x| !all_bands(&sc.pre_state).contains(x)).find(|x| rb.trace.iter().any(|l| l.starts_with(&format!("op write {}/BANDTAIL", band_name(*x))) && l.ends_with(" ok")));
+                    match b_band {
+                        None => report.oracle_fail("race:successful-backup-has-no-version", case.clone(), "a backup reported clean success but its version is not there (complete) after the race", json!({"a": trunc(&ra.result), "b": trunc(&rb.result)})),
+                        Some(x) => {
+                            let (rr, robs) = restore_observe(&arch, sc.run.work.path(), &Sel::Band(x), "racef");
+                            if !rr.result.starts_with("result ok") || !rr.events.is_empty() || crate::c01::tree_diff(&obs_b, &robs).is_some() {
+                                report.oracle_fail("race:mixed-version", case.clone(), "the version of the backup that reported clean success does not restore to its source after the race", json!({"band": band_name(x), "restore": trunc(&rr.result)}));
+                            }
+                        }
+                    }
+                }
+                remove_copy(&arch);
+            }
+        }
     }
 }
